@@ -56,11 +56,13 @@ class Chooser:
                    if kind == "sched" and run_en and c != 0)
 
 
-def explore_choices(run, bound, cap=None):
+def explore_choices(run, bound, cap=None, root_filter=None):
     """Depth-first enumeration of all choice sequences with at most `bound` preemptions.
     run(chooser) executes one complete behaviour.  Yields (chooser, result).  'order' points
     (completion order of isolated tasks) are free; 'sched' points cost one preemption when
-    the running thread was still enabled and another one is chosen."""
+    the running thread was still enabled and another one is chosen.  root_filter(i) -> bool
+    restricts the alternatives taken at point i of the root execution (used to shard one
+    exploration over several workers: the filters of the shards partition the indices)."""
     stack = [[]]
     n = 0
     while stack:
@@ -75,7 +77,7 @@ def explore_choices(run, bound, cap=None):
             return
         used = 0
         for i, (c, (arity, kind, run_en)) in enumerate(zip(ch.choices, ch.points)):
-            if i >= len(prefix):
+            if i >= len(prefix) and (root_filter is None or prefix or root_filter(i)):
                 cost = used + (1 if (kind == "sched" and run_en) else 0)
                 if cost <= bound:
                     for alt in range(arity - 1, 0, -1):
@@ -99,20 +101,102 @@ CTX = _Context()
 
 
 def shared_ids(root):
-    """ids of all mabwiser objects reachable from root (the shared bandit graph)."""
-    ids, stack = set(), [root]
+    """{id: object} of all mabwiser objects reachable from root (the shared bandit graph).  The objects
+    are kept alive by the mapping, so an id cannot be re-used by a task-private object created later."""
+    ids, stack = {}, [root]
     while stack:
         o = stack.pop()
         if id(o) in ids:
             continue
         if type(o).__module__.startswith("mabwiser"):
-            ids.add(id(o))
+            ids[id(o)] = o
             stack.extend(vars(o).values())
         elif isinstance(o, (list, tuple)):
             stack.extend(o)
         elif isinstance(o, dict):
             stack.extend(o.values())
     return ids
+
+
+# ---- opcode-level preemption points through sys.monitoring (PEP 669) ---------------------------------
+# Every code object of the mabwiser package is instrumented for INSTRUCTION events once, up front
+# (sys.settrace + f_trace_opcodes only starts delivering opcode events for a code object on its second
+# traced execution on CPython 3.12.1, which makes first executions irreproducible).  The callback is a
+# no-op outside scheduled task threads.
+_MON = sys.monitoring
+_TOOL = _MON.DEBUGGER_ID
+_TLS = threading.local()
+_OFFSETS = {}            # code object -> frozenset of instruction offsets that are preemption points
+_instrumented = False
+
+
+def _code_objects(code, seen):
+    if code in seen:
+        return
+    seen.add(code)
+    for c in code.co_consts:
+        if isinstance(c, type(code)):
+            _code_objects(c, seen)
+
+
+def _all_mabwiser_code():
+    import types
+    seen = set()
+    for name, mod in list(sys.modules.items()):
+        if not (name == "mabwiser" or name.startswith("mabwiser.")) or mod is None:
+            continue
+        for obj in list(vars(mod).values()):
+            if isinstance(obj, types.FunctionType) and "/mabwiser/" in obj.__code__.co_filename:
+                _code_objects(obj.__code__, seen)
+            elif isinstance(obj, type) and getattr(obj, "__module__", "").startswith("mabwiser"):
+                stack = [obj]
+                while stack:
+                    cls = stack.pop()
+                    for v in list(vars(cls).values()):
+                        f = v
+                        if isinstance(v, (staticmethod, classmethod)):
+                            f = v.__func__
+                        elif isinstance(v, property):
+                            for g in (v.fget, v.fset, v.fdel):
+                                if isinstance(g, types.FunctionType):
+                                    _code_objects(g.__code__, seen)
+                            continue
+                        if isinstance(f, types.FunctionType):
+                            _code_objects(f.__code__, seen)
+                        elif isinstance(f, type) and getattr(f, "__module__", "").startswith("mabwiser"):
+                            stack.append(f)
+    return seen
+
+
+def _on_instruction(code, offset):
+    run = getattr(_TLS, "run", None)
+    if run is None:
+        return None
+    offs = _OFFSETS.get(code)
+    if offs is None or offset not in offs:
+        return None
+    ids = run.ids
+    if ids is not None:
+        if id(sys._getframe(1).f_locals.get("self")) not in ids:
+            return None
+    run._point(_TLS.tid)
+    return None
+
+
+def _instrument():
+    global _instrumented
+    if _instrumented:
+        return
+    try:
+        _MON.use_tool_id(_TOOL, "mcx-sched")
+    except ValueError:
+        pass
+    _MON.register_callback(_TOOL, _MON.events.INSTRUCTION, _on_instruction)
+    for code in _all_mabwiser_code():
+        offs = frozenset(ins.offset for ins in dis.get_instructions(code) if ins.opname in PREEMPT_OPS)
+        _OFFSETS[code] = offs
+        _MON.set_local_events(_TOOL, code, _MON.events.INSTRUCTION)
+    _instrumented = True
 
 
 class _ThreadRun:
@@ -132,61 +216,51 @@ class _ThreadRun:
         self.results = [None] * n
         self.exc = [None] * n
         self.fatal = None
+        if preempt:
+            _instrument()
 
     def _point(self, tid):
+        if self.fatal is not None:
+            return
         others = [i for i in range(len(self.thunks)) if not self.done[i] and i != tid]
         if not others:
             return
-        c = self.chooser.choose(1 + len(others), "sched", True)
+        _TLS.run = None                   # the scheduler's own code is not a preemption point
+        try:
+            c = self.chooser.choose(1 + len(others), "sched", True)
+        except Divergence as e:
+            self.fatal = e
+            _TLS.run = self
+            return
         if c:
             self.sems[others[c - 1]].release()
             self.sems[tid].acquire()
-
-    def _tracer(self, tid):
-        ids = self.ids
-        opname = dis.opname
-        ops_ = PREEMPT_OPS
-        point = self._point
-
-        def local(frame, event, arg):
-            if event == "opcode":
-                if opname[frame.f_code.co_code[frame.f_lasti]] in ops_:
-                    point(tid)
-            return local
-
-        def glob(frame, event, arg):
-            if "/mabwiser/" in frame.f_code.co_filename:
-                if ids is None or id(frame.f_locals.get("self")) in ids:
-                    frame.f_trace_opcodes = True
-                    return local
-            return None
-        return glob
+        _TLS.run = self
 
     def _body(self, tid):
         self.sems[tid].acquire()
         try:
             if self.preempt:
-                sys.settrace(self._tracer(tid))
+                _TLS.run, _TLS.tid = self, tid
             try:
                 self.results[tid] = self.thunks[tid]()
-            except Divergence as e:
-                self.fatal = e
             except BaseException as e:                        # noqa: BLE001
                 self.exc[tid] = e
             finally:
-                sys.settrace(None)
+                _TLS.run = None
         finally:
             self.done[tid] = True
             rest = [i for i in range(len(self.thunks)) if not self.done[i]]
-            if not rest or self.fatal is not None:
+            if not rest:
                 self.main.release()
             else:
-                try:
-                    c = self.chooser.choose(len(rest), "sched", False) if len(rest) > 1 else 0
-                    self.sems[rest[c]].release()
-                except Divergence as e:
-                    self.fatal = e
-                    self.main.release()
+                c = 0
+                if self.fatal is None and len(rest) > 1:
+                    try:
+                        c = self.chooser.choose(len(rest), "sched", False)
+                    except Divergence as e:
+                        self.fatal = e
+                self.sems[rest[c]].release()
 
     def run(self):
         n = len(self.thunks)
@@ -196,10 +270,10 @@ class _ThreadRun:
         c = self.chooser.choose(n, "sched", False) if n > 1 else 0
         self.sems[c].release()
         self.main.acquire()
-        if self.fatal is not None:
-            raise self.fatal          # (blocked threads are daemons; the explorer aborts)
         for t in threads:
             t.join()
+        if self.fatal is not None:
+            raise self.fatal
         for e in self.exc:
             if e is not None:
                 raise e
